@@ -968,3 +968,30 @@ def no_mutual_deferral(ctx, p):
     ctx.ob(p + 'b queue-scan-ignores-commits-waiting-on-the-same-tree', 'K3-guard', pc.path,
            'while scanning the queue for users of a tree, the log worker looks at whether the scanned commit is itself a (deferrable) dereference of that tree; two commits that each dereference the tree and each mark it as used would otherwise defer each other forever',
            looks, 'the scan reads only used_trees of the queued commits')
+
+
+def lookup_sees_one_queue_state(ctx, p):
+    """A lookup that searches the current index and then the index tables of the reindex queue decides 'absent' from two looks.
+    Entries move from a queued table into the current index and the queued table is then dropped (drop_index needs only the
+    reindex write lock): a lookup that takes the reindex guard AFTER its search of the current index can be overtaken by the
+    whole move-and-drop and miss a key that was present throughout (F42). The guard has to be live at the first search."""
+    F = ctx.F
+    import lockorder
+    n = 0
+    for b in list(F.bodies.values()):
+        if 'HashColumn' not in b.path or b.path.endswith('}'):
+            continue
+        acq = [bi for bi, t in b.calls() if any(lockorder.ACQ_RX.search(nm) for nm in call_names(t)) and t['a'] and '.HashColumn.reindex' in lib.receiver_fields(b, t, 0)]
+        if not acq:
+            continue
+        srch = [bi for bi, t in b.calls() if bi in b.normal_blocks() and call_matches(t, ['column::HashColumn::get_in_index', 'column::HashColumn::search_index', 'index::IndexTable::get', 're:column::HashColumn::search_all_'])
+                and any({'.Tables.index', '.HashColumn.tables'} & lib.receiver_fields(b, t, i) for i in range(len(t['a'])))]
+        qs = [bi for bi, t in b.calls() if t['a'] and '.Reindex.queue' in lib.receiver_fields(b, t, 0)] or \
+             [bi for bi in b.normal_blocks() for s in b.blocks[bi]['s'] if s['k'] == 'assign' and '.Reindex.queue' in str(s['r'])]
+        if not srch or not (qs or any(call_matches(b.term(x), ['re:column::HashColumn::search_all_']) for x in srch)):
+            continue
+        for i, s in enumerate(srch):
+            n += 1
+            lib.held_at(ctx, p + 'a lookup-holds-queue-guard-from-first-search %s #%d' % (b.path, i), b, s, '.HashColumn.reindex',
+                        'the reindex-queue guard is taken before the current index is searched: the lookup sees one state of (current index, queue), a concurrent move-and-drop of the old table cannot fall between its two searches')
+    ctx.ob(p + 'a0 two-table-lookups', 'anchor', 'column::HashColumn', 'the lookups that search the current index and the reindex queue under a guard they take themselves were found (HashColumn::get)', n >= 1, 'found %d' % n)
